@@ -1,6 +1,7 @@
 package harness
 
 import (
+	"io"
 	"context"
 	"github.com/ipld/go-storethehash/store/types"
 	"errors"
@@ -108,6 +109,16 @@ func (w *World) doCall(op Op, rec *callRec) {
 	case OpFlush:
 		if err := w.S.Flush(); err != nil {
 			rec.Err = err.Error()
+		}
+	case OpIterate:
+		it := w.S.NewIterator()
+		for n := 0; n < 1000; n++ {
+			if _, _, err := it.Next(); err != nil {
+				if err != io.EOF {
+					rec.Err = err.Error()
+				}
+				break
+			}
 		}
 	case OpIdxGC:
 		_, _, err := w.gcIndex(context.Background(), op.B)
